@@ -7,7 +7,7 @@ TUS = ["mzd", "mmc", "misc", "graycode", "brilliantrussian", "strassen", "mzp", 
 NAIVE_PLUQ = ("-D_mzd_pluq(A,P,Q,c)=_mzd_pluq_naive(A,P,Q)", "-Dmzd_pluq(A,P,Q,c)=_mzd_pluq_naive(A,P,Q)")
 
 
-def G(pid, mode, fn, m, n, props, kind="owned", bw=None, extra=None, timeout=900, tus=None, naive_pluq=False, slots=2, mem=16, config="host", supporting=False, unwind=4, note=""):
+def G(pid, mode, fn, m, n, props, kind="owned", bw=None, extra=None, timeout=900, tus=None, naive_pluq=False, slots=2, mem=16, config="host", supporting=False, unwind=1, note=""):
     d = {**mat(m, n, kind, "A_"), "M_": m, "N_": n, "H_" + mode: None, "VRMAX": max(m, n, 2) + (0), "VCMAX": max(m, n) + (bw or 0) + 1, "KMAXBUILD": 3}
     d.pop("A_NR"), d.pop("A_NC")
     if bw is not None:
@@ -29,7 +29,7 @@ def G(pid, mode, fn, m, n, props, kind="owned", bw=None, extra=None, timeout=900
     return Group(gid="B.%s.%s" % (mode.lower(), tag), props=list(props), harness="b_alg.c", function=fn, layer="B", defines=d,
                  tus=t, assert_mode=True, unwind=unwind, refine=True, spec_unwind=max(d["VRMAX"], d["VCMAX"], 6) + 2, config=config, bounded=True,
                  bound_note="shape %s, all operand bits symbolic%s%s" % (tag, "; _mzd_pluq replaced by the library's _mzd_pluq_naive (same certificate contract, see DESIGN.md C06)" if naive_pluq else "", note),
-                 shape=tag, timeout=timeout, slots=slots, mem_gb=mem, supporting=supporting, solver="--sat-solver cadical",
+                 shape=tag, timeout=timeout, slots=max(slots, 2), mem_gb=mem, supporting=supporting, solver="portfolio",
                  extra_cflags=[], native_tus=t)
 
 
@@ -46,12 +46,19 @@ def prows_groups(tier, props=("C02", "C12", "C09", "C11")):
     if not q:
         # measured: chunks of 9-10 bits (k = 33..40 with 4-6 tables, 512/1024-row tables) run out of memory; kept below that
         cases += [(2, 12, 200, 120, "view1", 0, 3), (3, 15, 200, 64, "owned", 0, 2), (4, 20, 130, 40, "owned", 0, 2), (6, 24, 130, 30, "owned", 0, 2)]
-    for nt, k, nc, ccol, kind, lo, hi in cases:
+    # concrete tables (contents and maps fixed, rows of M symbolic): the chunk sizes the symbolic tables cannot reach (pivot bits beyond 32)
+    conc = [(4, 34, 130, 20, "owned", 0, 2), (2, 18, 130, 50, "view1", 0, 2)]
+    if not q:
+        conc += [(6, 48, 130, 10, "owned", 0, 2), (5, 40, 200, 60, "view1", 0, 2), (3, 27, 130, 40, "owned", 0, 2)]
+    for nt, k, nc, ccol, kind, lo, hi in cases + conc:
         d = mat(3, nc, kind)
         dd = dict(d)
         dd.update({"NT": nt, "KBITS": k, "CCOL": ccol, "ROW_LO": lo, "ROW_HI": hi})
         fn = "mzd_process_rows" + ("" if nt == 1 else str(nt))
         tag = "nt%d.k%d.3x%d.c%d.%s.rows%d-%d" % (nt, k, nc, ccol, kind, lo, hi)
+        if (nt, k, nc, ccol, kind, lo, hi) in conc:
+            dd["CONCTAB"] = None
+            tag += ".conctab"
         maxrows = 1 << ((k + nt - 1) // nt + 1)
         gs.append(Group(gid="K.%s.%s" % (fn, tag), props=list(props), harness="k_prows.c", function=fn, layer="K", defines=dd, tus=TUS, assert_mode=True,
                         unwind=max(maxrows, 66) + 2, bounded=True, bound_note="shape " + tag, shape=tag, timeout=900, mem_gb=24 if k > 20 else 12, slots=2 if k > 20 else 1,
